@@ -36,7 +36,11 @@ RULE = (
     "constant/global(+tile subview)/alloc + layout_cast + consumer module, for every nesting order of every tile split "
     "(exhaustive for <= 4 strides over a list of shapes, sampled up to 9 strides / rank 3 / unit bounds with arbitrary steps), "
     "widths 8/16/32; the new bytes are decoded with the C10 reference address function; for the subview pattern the tile "
-    "layout must be the global's new layout restricted to the tile. transpose_tuple and the whole RemoveTransposeConstants "
+    "layout must be the global's new layout restricted to the tile; cases without memory space are pushed through "
+    "set-memory-space,realize-memref-casts a second time (input that already carries a layout) and executed again. Dataflow "
+    "programs also hold globals whose memref.global / get_global types already carry a dense TSL layout, explicit L1 casts "
+    "whose result has derived views (casts chained on it in a later epoch, read and written) and bare uses of the root beside "
+    "explicit casts (bare_ok). transpose_tuple and the whole RemoveTransposeConstants "
     "pattern: all shapes 1..12 x 1..12. Boundaries: function type, block arguments and returned types before and after "
     "clear-memory-space; signatures mix memrefs with an explicit space (L1, L3) and without one, as arguments and results: every "
     "annotated boundary type keeps its annotation, un-annotated ones become L3. Dynamic shapes: arguments and allocs with `?` "
@@ -676,7 +680,28 @@ def prop_constants(r):
                 raise Violation("constants:subview_global:tile-layout-is-not-the-global-layout-restricted-to-the-tile",
                                 dict(index=[int(i) for i in idx], global_layout=G.tsl_text(gl), tile_layout=G.tsl_text(tl), **shown))
     cls.append("transformed" if transformed else "copied")
-    return Info(nontrivial=transformed and not rm, classes=tuple(cls), sample=shown, evals=2)
+    evals = 2
+    if r.get("space") is None:
+        # second round: the output (global / constant / alloc that now carries the layout, no memory space anywhere) is input
+        # of the pipeline again; the consumer must still read the same logical values through the declared layout
+        out2 = out.clone()
+        try:
+            with warnings.catch_warnings():
+                warnings.simplefilter("ignore")
+                _run(out2, "set-memory-space")
+                _run(out2, "realize-memref-casts")
+        except PassCrash as e:
+            raise Violation(f"constants:{kind}:round2:pass-raises:{type(e.exc).__name__}", dict(error=str(e)[:300], before=to_text(out)))
+        try:
+            res2 = M.run(out2, "main", terms, [])
+        except InterpError as e:
+            raise Violation(f"constants:{kind}:round2:output-not-executable", dict(error=str(e)[:200], before=to_text(out), after=to_text(out2)))
+        mis2 = [(s_, dict(problem=t_)) for s_, t_ in res2.m.problems] + M.compare(terms, ref, res2)
+        if mis2:
+            raise Violation(f"constants:{kind}:round2:{mis2[0][0]}", dict(layout=G.tsl_text(layout), mismatch=mis2[0][1], before=to_text(out), after=to_text(out2)))
+        cls.append("round2")
+        evals = 3
+    return Info(nontrivial=transformed and not rm, classes=tuple(cls), sample=shown, evals=evals)
 
 
 def prop_transpose(r):
